@@ -29,6 +29,7 @@ type UnitResult struct {
 	EngineError   string
 	SrcHash       string
 	Exits         []exitRecord
+	Entry         []entryVal
 }
 
 func newUnit(prog *Program, fi *FuncInfo, con *Contract) *Unit {
@@ -281,6 +282,12 @@ func (u *Unit) finish(res *UnitResult) {
 	res.Unmodelled = sortedKeys(u.unmodelled)
 	res.Notes = u.reg.sortedNotes()
 	res.Exits = u.exits
+	if u.entryRecv != nil {
+		res.Entry = append(res.Entry, entryVal{Role: "recv", Term: u.entryRecv.T, Sort: u.entryRecv.S, Type: u.entryRecv.GT})
+	}
+	for i, pv := range u.entryParams {
+		res.Entry = append(res.Entry, entryVal{Role: fmt.Sprintf("param%d", i), Term: pv.T, Sort: pv.S, Type: pv.GT})
+	}
 }
 
 // VerifyLemma proves a lemma from the contracts / predicates it mentions.
